@@ -1,7 +1,7 @@
 """C05 — SCC pop-on decoding reproduces the CEA-608 screen: text, rows, italics, position."""
 import json
 from fractions import Fraction
-from pcv import core, sccgen
+from pcv import capio, core, sccgen
 from pcv.props import scc_common as sc
 
 P = "PcVerif.Props.C05."
@@ -103,7 +103,7 @@ def explore(chk):
         progs.append(sccgen.styled_adjacent_rows_program(rng, doubled=bool(i % 2)))
     chk.exhaustive = True
     b = core.Batch()
-    ops = [b.add("scc.read", "%d/1" % p["offset"], core.enc(p["text"])) for p in progs]
+    ops = [b.add("scc.read", capio.fr(p["offset"]), core.enc(p["text"])) for p in progs]
     out = b.run() if chk.driver_ok else None
     for p, o in zip(progs, ops):
         I = sc.impl_read(p["text"], p["offset"])
